@@ -13,7 +13,10 @@
 (* made, the documented damping factor), not read from the solver.         *)
 (* Times are integers; `e` is the slack, in the same unit, allowed where   *)
 (* the property says "to rounding" (0 for exact runs).                     *)
-(* In is [tf, dt0, pfreq, outs, maxsteps].                                 *)
+(* In is [tf, dt0, pfreq, outs, maxsteps, t0, c0]: t0 and c0 are the time   *)
+(* and the iteration count solve() starts from (0 and 0 for a fresh         *)
+(* solver; a solver continued after max_steps stopped it, or restarted      *)
+(* from saved solver data, starts from where it was).                       *)
 (***************************************************************************)
 EXTENDS Integers, Sequences, FiniteSets
 
@@ -24,9 +27,10 @@ Steps(l) == SelectSeq(l, LAMBDA x : x.ev = "step")
 Dumps(l) == SelectSeq(l, LAMBDA x : x.ev = "dump")
 Calls(l) == SelectSeq(l, LAMBDA x : x.ev \in {"pre", "step", "post"})
 NSteps(l) == Len(Steps(l))
-FinalT(l) == LET S == Steps(l) IN IF S = <<>> THEN 0 ELSE S[Len(S)].t + S[Len(S)].dt
+FinalT0(l, t0) == LET S == Steps(l) IN IF S = <<>> THEN t0 ELSE S[Len(S)].t + S[Len(S)].dt
+FinalT(l) == FinalT0(l, 0)
 FirstStepDt(l) == LET S == Steps(l) IN IF S = <<>> THEN 0 ELSE S[1].dt
-Inner(I, e) == {r \in I.outs : r > e /\ r < I.tf - e}
+Inner(I, e) == {r \in I.outs : r > I.t0 + e /\ r < I.tf - e}
 
 \* (every clause binds Steps / Dumps once: the logs of long runs have
 \* thousands of events)
@@ -34,9 +38,10 @@ Inner(I, e) == {r \in I.outs : r > e /\ r < I.tf - e}
 P_Terminates(l, I, e) ==
     /\ l # <<>>
     /\ l[Len(l)].ev = "dump"
-    /\ \/ Near(FinalT(l), I.tf, e)
-       \/ NSteps(l) = I.maxsteps
-    /\ NSteps(l) <= I.maxsteps
+    /\ \/ Near(FinalT0(l, I.t0), I.tf, e)
+       \/ I.c0 + NSteps(l) = I.maxsteps
+       \/ (NSteps(l) = 0 /\ I.c0 >= I.maxsteps)
+    /\ (NSteps(l) > 0 => I.c0 + NSteps(l) <= I.maxsteps)
 
 \* time increases strictly
 P_Monotone(l, I, e) ==
@@ -46,28 +51,29 @@ P_Monotone(l, I, e) ==
 P_StepBounded(l, I, e) ==
     LET S == Steps(l) IN \A k \in DOMAIN S : S[k].dt <= S[k].lim + e
 
-\* the steps tile [0, final t]
+\* the steps tile [t0, final t]
 P_Contiguous(l, I, e) ==
     LET S == Steps(l)
     IN \A k \in DOMAIN S :
-         Near(S[k].t, IF k = 1 THEN 0 ELSE S[k - 1].t + S[k - 1].dt, e)
+         Near(S[k].t, IF k = 1 THEN I.t0 ELSE S[k - 1].t + S[k - 1].dt, e)
 
 P_DumpStart(l, I, e) ==
-    /\ l # <<>> /\ l[1].ev = "dump" /\ l[1].t = 0 /\ l[1].count = 0
+    /\ l # <<>> /\ l[1].ev = "dump" /\ Near(l[1].t, I.t0, e) /\ l[1].count = I.c0
 
 P_DumpEnd(l, I, e) ==
     /\ l # <<>>
     /\ LET d == l[Len(l)]
-       IN d.ev = "dump" /\ Near(d.t, FinalT(l), e) /\ d.count = NSteps(l)
+       IN d.ev = "dump" /\ Near(d.t, FinalT0(l, I.t0), e)
+          /\ d.count = I.c0 + NSteps(l)
 
 \* output at every pfreq-th iteration
 P_DumpPfreq(l, I, e) ==
     LET S == Steps(l)
         D == Dumps(l)
-        after(k) == IF k = 0 THEN 0 ELSE S[k].t + S[k].dt
+        after(k) == IF k = 0 THEN I.t0 ELSE S[k].t + S[k].dt
     IN \A k \in 0..Len(S) :
-        k % I.pfreq = 0 =>
-            \E i \in DOMAIN D : D[i].count = k /\ Near(D[i].t, after(k), e)
+        (I.c0 + k) % I.pfreq = 0 =>
+            \E i \in DOMAIN D : D[i].count = I.c0 + k /\ Near(D[i].t, after(k), e)
 
 \* never past a requested time inside (0, tf)
 P_NeverPast(l, I, e) ==
@@ -79,7 +85,7 @@ P_NeverPast(l, I, e) ==
 \* output at every requested time inside (0, tf) that the run reached
 P_DumpAtTimes(l, I, e) ==
     LET D == Dumps(l)
-        ft == FinalT(l)
+        ft == FinalT0(l, I.t0)
     IN \A r \in Inner(I, e) :
         r <= ft + e => \E i \in DOMAIN D : Near(D[i].t, r, e)
 
@@ -97,9 +103,9 @@ P_Callbacks(l, I, e) ==
         n == NSteps(l)
     IN /\ Len(c) = 3 * n
        /\ \A k \in 1..n :
-            /\ c[3 * k - 2].ev = "pre"  /\ c[3 * k - 2].count = k - 1
-            /\ c[3 * k - 1].ev = "step" /\ c[3 * k - 1].count = k - 1
-            /\ c[3 * k].ev = "post"     /\ c[3 * k].count = k - 1
+            /\ c[3 * k - 2].ev = "pre"  /\ c[3 * k - 2].count = I.c0 + k - 1
+            /\ c[3 * k - 1].ev = "step" /\ c[3 * k - 1].count = I.c0 + k - 1
+            /\ c[3 * k].ev = "post"     /\ c[3 * k].count = I.c0 + k - 1
 
 PNames == {"Terminates", "Monotone", "StepBounded", "Contiguous", "DumpStart",
            "DumpEnd", "DumpPfreq", "NeverPast", "DumpAtTimes", "RecordedDt",
@@ -122,7 +128,8 @@ Holds(n, l, I, e) ==
 Failed(l, I, e) == {n \in PNames : ~ Holds(n, l, I, e)}
 
 \* Known finding C10-first-step (see known_findings.json): requested times
-\* strictly inside the first step.  Masked(..) removes exactly those.
-KnownFirstStep(l, I, e) == {r \in Inner(I, e) : r + e < FirstStepDt(l)}
+\* strictly inside the first step (of this call of solve()).  Masked(..)
+\* removes exactly those.
+KnownFirstStep(l, I, e) == {r \in Inner(I, e) : r + e < I.t0 + FirstStepDt(l)}
 Masked(l, I, e) == [I EXCEPT !.outs = I.outs \ KnownFirstStep(l, I, e)]
 =============================================================================
